@@ -578,6 +578,8 @@ struct Harness {
         bool blocked = (s.ts.state == 'S' || s.ts.state == 'D') && s.ts.vol == p.ts.vol &&
                        s.ts.nonvol == p.ts.nonvol;
         bool spinning = s.spins > p.spins;
+        if (spinning)
+          anyInRegion = true; // e.g. the master waiting in decascade() after its own share of the region
         if (it != tidToIdx.end()) {
           if (spinning)
             spinAccum[it->second] += s.spins - p.spins;
